@@ -81,6 +81,9 @@ CFG = dict(
           "WithGroup of length <= 5 with sibling derivations interleaved, five levels, source on/off, through Handler.Handle with hand-built "
           "records (pcs inside functions declared under //line directives with quote, backslash, control, non-ASCII file names) and through "
           "all Logger methods (Debug..Error, Log, LogAttrs, Debugf..Errorf, Logf, Panic, Panicf) called from those functions. "
+          "SEQUENCES of records through one handler / fresh handlers / derived handlers of one process whose times share a Unix second "
+          "but differ in zone offset (UTC, +08:00, -03:30, +05:45, +14:00, -12:00, +00:53:28, ...), pairs one nanosecond apart across a "
+          "second boundary, the zero time, year 9999/10000 - each record judged against time.AppendFormat of its own time. "
           "distinct = distinct case lines; lines above 6000 bytes carry the tag EL and are not drawn into the in-Coq sample"),
     trusted_base=[HARNESS_TB, EXTRACT_TB,
                   "Lib/Json.v is my reading of RFC 8259 (strict, except that an invalid UTF-8 byte inside a string reads as U+FFFD like in "
